@@ -3,7 +3,8 @@
    `calc ord cp n tbl sc t` evaluates the op tree t with fuel n, session symbols tbl and the
    lambda arguments sc; `compile` is op_t::compile; `parse`/`print` work on token lists.
    `ord` (hash-table order of balances) and `cp` (commodity display precision) are arbitrary. *)
-From LedgerV Require Import Base.Prelude Base.Round Model.Amount Model.Expr Proofs.ExprProofs Proofs.ParserProofs.
+From LedgerV Require Import Base.Prelude Base.Round Model.Amount Model.Expr Proofs.ExprProofs Proofs.ParserProofs
+  Model.AmountText Model.ExprLex Proofs.ExprLexProofs Gen.TokenWords.
 Local Open Scope Z_scope.
 
 (* ---- the parser implements the documented precedence grammar ----
@@ -215,3 +216,68 @@ Proof.
          |exists w_cp, w_dyn; split; [exact by_name_variable_sees_callee_parameter|reflexivity]].
 Qed.
 Print Assumptions lexical_scoping_parameters_refuted.
+
+(* ---- the tokenizer (token.cc; Model/ExprLex.v): `lex` reads the expression TEXT (byte list), the same bytes
+   ledger gets.  ftok = the tokens with a fixed spelling: & && and | || or ( ) ! not != - -> + * ? : / div = == < <=
+   > >= , ; if else true false; `fspell l` writes each token of l followed by k+1 blanks (k chosen per token);
+   `slash_ok` says that `/` stands only behind a complete term (`)`, true, false), where parser.cc reads in operator
+   context. ---- *)
+Theorem lex_round_trip_fixed : forall l, slash_ok false l = true ->
+  lex (fspell l) = Ok (map (fun p => fden (fst p)) l).
+Proof. exact lex_round_trip_fixed_lemma. Qed.
+Print Assumptions lex_round_trip_fixed.
+
+Example lex_round_trip_fixed_hypothesis_satisfiable :
+  slash_ok false [(FLP, 0%nat); (FTrue, 2%nat); (FRP, 0%nat); (FSlash, 1%nat); (FNot, 0%nat); (FFalse, 0%nat)] = true
+  /\ fspell [(FTrue, 0%nat); (FAnd, 1%nat); (FFalse, 0%nat)] = [116; 114; 117; 101; 32; 97; 110; 100; 32; 32; 102; 97; 108; 115; 101; 32].
+Proof. split; reflexivity. Qed.
+
+(* white space in front of any token, and in front of the text, is not part of the expression (any of blank, tab,
+   newline, CR, VT, FF; any text s, any fuel) *)
+Theorem lex_token_blanks_insensitive : forall c ws s, forallb is_space ws = true ->
+  next_tok c (ws ++ s) = next_tok c s.
+Proof. exact next_tok_blanks. Qed.
+Print Assumptions lex_token_blanks_insensitive.
+
+Theorem lex_leading_blanks_insensitive : forall ws s ts, forallb is_space ws = true ->
+  lex s = Ok ts -> lex (ws ++ s) = Ok ts.
+Proof. exact lex_leading_blanks. Qed.
+Print Assumptions lex_leading_blanks_insensitive.
+
+Theorem lex_fuel_monotone : forall n c s ts e, lex_fuel n c s = (ts, e) -> e <> Some EOutOfFuel ->
+  forall m, (n <= m)%nat -> lex_fuel m c s = (ts, e).
+Proof. exact lex_fuel_mono. Qed.
+Print Assumptions lex_fuel_monotone.
+
+(* REQUIRES the table regenerated from token.cc parse_reserved_word (Gen/TokenWords.v): five letters are read, the
+   eight words map to the documented kinds, and each word's first letter is in the set that starts the scan *)
+Theorem token_words_as_documented :
+  src_token_word_max = 5 /\
+  map (fun p => word_kind (fst p) src_token_words) src_token_words =
+    [Some TAnd; Some TKwDiv; Some TKwElse; Some (TVal (VBool false)); Some TKwIf; Some TOr; Some TExclam; Some (TVal (VBool true))] /\
+  forallb (fun p => existsb (Z.eqb (hd 0 (fst p))) src_token_word_first) src_token_words = true.
+Proof. exact token_words_as_documented_lemma. Qed.
+Print Assumptions token_words_as_documented.
+
+(* "a blank between two tokens always separates them" is FALSE of the faithful model (and of ledger): the default arm
+   of token_t::next tries amount_t::parse first, which reads SYMBOL [blanks] [-]NUMBER as one amount, and
+   parse_reserved_word reads five letters whatever follows.  Witnesses: `zqa 3` and `zqa -3` are ONE token (3 and -3 of
+   commodity zqa) while `zqa - 3` is three; `falsely` is the word false followed by the identifier ly; `1,5` is the one
+   number 1.5; `and_x` is the operator and followed by the identifier _x. *)
+Theorem blank_separates_tokens_refuted :
+  lex [122; 113; 97; 32; 51] = Ok [TVal (VAmt (mkAmt 3 0 false (Some [122; 113; 97])))] /\
+  lex [122; 113; 97; 32; 45; 51] = Ok [TVal (VAmt (mkAmt (-3) 0 false (Some [122; 113; 97])))] /\
+  lex [122; 113; 97; 32; 45; 32; 51] = Ok [TIdent [122; 113; 97]; TMinus; TVal (VAmt (mkAmt 3 0 false None))] /\
+  lex [102; 97; 108; 115; 101; 108; 121] = Ok [TVal (VBool false); TIdent [108; 121]] /\
+  lex [49; 44; 53] = Ok [TVal (VAmt (mkAmt (3 # 2) 1 false None))] /\
+  lex [97; 110; 100; 95; 120] = Ok [TAnd; TIdent [95; 120]].
+Proof. repeat split; vm_compute; reflexivity. Qed.
+Print Assumptions blank_separates_tokens_refuted.
+
+(* literals and identifiers through the tokenizer (computed): `zqx=1.50;zqx*{$2.00}/f(zqx, 3 EUR)` *)
+Example lex_literals_and_identifiers :
+  lex [122; 113; 120; 61; 49; 46; 53; 48; 59; 122; 113; 120; 42; 123; 36; 50; 46; 48; 48; 125; 47; 102; 40; 122; 113; 120; 44; 32; 51; 32; 69; 85; 82; 41] =
+  Ok [TIdent [122; 113; 120]; TAssign; TVal (VAmt (mkAmt (3 # 2) 2 false None)); TSemi; TIdent [122; 113; 120]; TStar;
+      TVal (VAmt (mkAmt 2 2 true (Some [36]))); TSlash; TIdent [102]; TLParen; TIdent [122; 113; 120]; TComma;
+      TVal (VAmt (mkAmt 3 0 false (Some [69; 85; 82]))); TRParen].
+Proof. vm_compute. reflexivity. Qed.
